@@ -33,6 +33,8 @@ def main(tier, replay=None):
     with common.Scratch("c01") as scratch:
         for k in range(nschemas):
             prog, rng = gen.rand_case(seed, k, big_arrays=(k % 10 == 0))
+            if k % 8 == 3:
+                prog = gen.wrap_diamond(prog, rng)   # three files: app imports main and the file main imports
             t = prog["rtype"]
             vals = [gen.gen_value(rng, t, "zero"), gen.gen_value(rng, t, "ones")]
             vals += [gen.gen_value(rng, t, "rand") for _ in range(nvalues - 2)]
